@@ -177,6 +177,14 @@ Proof.
   - apply Gen_nil, steps_refl.
 Qed.
 
+Lemma Gen_one' p q K c v' (Q : vst -> Prop) :
+  steps c (RunV q v' K) -> Q v' -> Gen p q K c [Q].
+Proof.
+  intros Hs HQ. eapply Gen_cons with (F := []); simpl; eauto.
+  - constructor.
+  - apply Gen_nil, steps_refl.
+Qed.
+
 Lemma Gen_none pc q K v : steps (RunV pc v K) (Fail K) -> Gen pc q K (RunV pc v K) [].
 Proof. intros. now apply Gen_nil. Qed.
 
@@ -803,5 +811,319 @@ Proof.
   destruct (seg_alts hc r x IH g pc ns cds ns1 Hc Hnd HAt Hokl Hns Hng) as [M G]. split; auto.
   intros v K Hsl Hokv. rewrite alt_layout_length, sem_alt_eq. apply G; auto.
 Qed.
+
+(* ---------- loops ---------- *)
+
+Lemma step_splitV pc v K x y : at_ pc (ISplit x y) -> mstep (RunV pc v K) = RunV x v (alt_of y v :: K).
+Proof. intros H. unfold RunV. now rewrite (step_split cx P pc _ _ _ K x y H). Qed.
+Lemma step_jmpV pc v K x : at_ pc (IJmp x) -> mstep (RunV pc v K) = RunV x v K.
+Proof. intros H. unfold RunV. now rewrite (step_jmp cx P pc _ _ _ K x H). Qed.
+Lemma fail_alt y v K : mstep (Fail (alt_of y v :: K)) = RunV y v K.
+Proof. reflexivity. Qed.
+
+Section Loop.
+Variables (p q bst bend k0 nsb ns1 : nat) (body : sst -> list sst).
+Hypothesis Hpb : p <= bst.
+Hypothesis Hbq : bend <= q.
+Hypothesis Hbstq : bst <= q.
+Hypothesis Hk0 : NC <= k0 <= nsb.
+Hypothesis Hn1 : nsb <= ns1.
+Hypothesis Hbody : forall v K, ns1 <= length (v_sl v) -> st_ok cs (sof v) ->
+   Gen p bend K (RunV bst v K) (map (R v nsb ns1) (body (sof v))).
+Hypothesis Hpres : forall st st', st_ok cs st -> In st' (body st) -> st_ok cs st' /\ fst st <= fst st'.
+
+Definition ext (v0 v : vst) : Prop := v_aux v = v_aux v0 /\ frame k0 ns1 (v_sl v0) (v_sl v).
+
+Lemma ext_refl v : ext v v. Proof. split; auto. apply frame_refl. Qed.
+
+Lemma R_ext v0 v x v' : ext v0 v -> R v nsb ns1 x v' -> R v0 k0 ns1 x v'.
+Proof.
+  intros [Ha [L1 F1]] (Hi & Hc & Hax & [L2 F2]). unfold R. repeat split; auto; try congruence.
+  intros j Hj Ho. rewrite F2, F1; auto; lia.
+Qed.
+
+Lemma ext_R v0 v x v' : ext v0 v -> R v nsb ns1 x v' ->
+  ext v0 v' /\ sof v' = x /\ length (v_sl v') = length (v_sl v).
+Proof.
+  intros He HR. pose proof (R_ext _ _ _ _ He HR) as (Hi & Hc & Hax & Hf).
+  split; [split; auto|]. split; [apply sof_eq; auto|]. destruct HR as (_ & _ & _ & [L _]). exact L.
+Qed.
+
+Lemma ext_self_R v0 v : ext v0 v -> R v0 k0 ns1 (sof v) v.
+Proof. intros [Ha Hf]. unfold R, sof; cbn [fst snd]. auto. Qed.
+
+Lemma body_then (g : sst -> list sst) v0 v K :
+  ns1 <= length (v_sl v) -> st_ok cs (sof v) ->
+  (forall a v2 K2, In a (body (sof v)) -> R v nsb ns1 a v2 ->
+     Gen p q K2 (RunV bend v2 K2) (map (R v0 k0 ns1) (g a))) ->
+  Gen p q K (RunV bst v K) (map (R v0 k0 ns1) (flat_map g (body (sof v)))).
+Proof.
+  intros Hl Hok Hc. rewrite <- concat_map_map. eapply Gen_bind with (r := bend); [lia|apply Hbody; auto|].
+  apply Forall2_same_map. intros a Ha v2 K2 HR. apply Hc; auto.
+Qed.
+
+(* assembling a greedy / lazy choice between "more" and "stop here" *)
+Lemma choice_gen (gr : bool) c0 v0 v K (more : list sst) :
+  steps c0 (if gr then RunV bst v (alt_of q v :: K) else RunV q v (alt_of bst v :: K)) -> ext v0 v ->
+  (forall K', Gen p q K' (RunV bst v K') (map (R v0 k0 ns1) more)) ->
+  Gen p q K c0 (map (R v0 k0 ns1) (if gr then more ++ [sof v] else sof v :: more)).
+Proof.
+  intros HH He Hmore. eapply Gen_steps; [exact HH|]. destruct gr.
+  - rewrite map_app. apply (Gen_app cx P p q [alt_of q v]).
+    + constructor; [|constructor]. cbn [alt_of a_pc]. lia.
+    + apply Hmore.
+    + apply Gen_step. cbn [app]. rewrite fail_alt. cbn [map]. eapply Gen_one'; [apply steps_refl|].
+      now apply ext_self_R.
+  - cbn [map].
+    eapply Gen_cons with (F := [alt_of bst v]) (v := v); [apply steps_refl| |now apply ext_self_R|].
+    + constructor; [|constructor]. cbn [alt_of a_pc]. lia.
+    + apply Gen_step. cbn [app]. rewrite fail_alt. apply Hmore.
+Qed.
+
+Lemma star_loop H (gr : bool) :
+  at_ H (if gr then ISplit bst q else ISplit q bst) ->
+  (forall v K, steps (RunV bend v K) (RunV H v K)) ->
+  (forall st st', st_ok cs st -> In st' (body st) -> fst st < fst st') ->
+  forall f v0 v K, ext v0 v -> length t - v_ix v < f -> ns1 <= length (v_sl v) -> st_ok cs (sof v) ->
+  Gen p q K (RunV H v K) (map (R v0 k0 ns1) (rep_opt_u body gr f (sof v))).
+Proof.
+  intros HH Hback Hadv. induction f as [|f IH]; intros v0 v K He Hf Hl Hok; [lia|].
+  cbn [rep_opt_u]. apply choice_gen; auto.
+  { apply steps_step. destruct gr; apply step_splitV; exact HH. }
+  intros K'. apply body_then; auto.
+  intros a v2 K2 Hin HR. destruct (ext_R _ _ _ _ He HR) as (He2 & Es & Hl2).
+  pose proof (Hadv _ _ Hok Hin) as Hlt. destruct (Nat.eqb_spec (fst a) (fst (sof v))); [lia|].
+  eapply Gen_steps; [apply Hback|]. rewrite <- Es. rewrite <- Es in Hlt. cbn [sof fst] in Hlt.
+  assert (Hok2 : st_ok cs (sof v2)) by (rewrite Es; apply (Hpres _ _ Hok Hin)).
+  pose proof (st_ok_ix _ Hok2). apply IH; auto; lia.
+Qed.
+
+(* ----- RepeatEpsilon: rep = k0, check = k0 + 1, body slots from k0 + 2 ----- *)
+Lemma nth_upd_same {A} (l : list A) i v : i < length l -> nth_error (upd l i v) i = Some v.
+Proof. intros H. rewrite nth_error_upd, Nat.eqb_refl. destruct (Nat.ltb_spec i (length l)); [reflexivity|lia]. Qed.
+Lemma nth_upd_other {A} (l : list A) i j v : i <> j -> nth_error (upd l i v) j = nth_error l j.
+Proof. intros H. rewrite nth_error_upd. destruct (Nat.eqb_spec i j); [contradiction|reflexivity]. Qed.
+
+Definition setsl (v : vst) (sl : list val) : vst := {| v_ix := v_ix v; v_sl := sl; v_aux := v_aux v |}.
+
+Lemma eps_head H (gr : bool) lo v K c ck :
+  at_ H (if gr then IRepeatEpsilonGr lo q k0 (k0 + 1) else IRepeatEpsilonNg lo q k0 (k0 + 1)) -> S H = bst ->
+  nth_error (v_sl v) k0 = Some (V c) -> nth_error (v_sl v) (k0 + 1) = Some ck ->
+  mstep (RunV H v K) =
+  if N.ltb lo (N.of_nat c) && val_eqb ck (V (v_ix v)) then Fail K else
+  if N.leb lo (N.of_nat c) then
+    let v1 := setsl v (upd (upd (v_sl v) k0 (V (c + 1))) (k0 + 1) (V (v_ix v))) in
+    if gr then RunV bst v1 (alt_of q v1 :: K) else RunV q v1 (alt_of bst v1 :: K)
+  else RunV bst (setsl v (upd (v_sl v) k0 (V (c + 1)))) K.
+Proof.
+  intros HH Hb E1 E2. unfold RunV. destruct gr.
+  - rewrite (step_repeat_eps_gr cx P H _ _ _ K lo q k0 (k0 + 1) c ck HH E1 E2).
+    destruct (_ && _); [reflexivity|]. cbv zeta. destruct (N.leb lo (N.of_nat c)); rewrite Hb; reflexivity.
+  - rewrite (step_repeat_eps_ng cx P H _ _ _ K lo q k0 (k0 + 1) c ck HH E1 E2).
+    destruct (_ && _); [reflexivity|]. cbv zeta. destruct (N.leb lo (N.of_nat c)); rewrite ?Hb; reflexivity.
+Qed.
+
+Lemma ext_upd v0 v j x : ext v0 v -> k0 <= j < ns1 -> ext v0 (setsl v (upd (v_sl v) j x)).
+Proof.
+  intros [Ha [L F]] Hj. split; [exact Ha|]. cbn [setsl v_sl]. split; [now rewrite upd_length|].
+  intros i Hi Ho. rewrite nth_upd_other by lia. auto.
+Qed.
+
+Lemma sof_upd v j x : NC <= j -> sof (setsl v (upd (v_sl v) j x)) = sof v.
+Proof. intros H. unfold sof, setsl; cbn [v_ix v_sl]. now rewrite caps_upd_ge. Qed.
+
+Lemma R_slot v x v' j : R v nsb ns1 x v' -> NC <= j < nsb -> nth_error (v_sl v') j = nth_error (v_sl v) j.
+Proof. intros (_ & _ & _ & [_ F]) Hj. apply F; lia. Qed.
+
+Lemma eps_opt H (gr : bool) lo :
+  at_ H (if gr then IRepeatEpsilonGr lo q k0 (k0 + 1) else IRepeatEpsilonNg lo q k0 (k0 + 1)) -> S H = bst ->
+  nsb = k0 + 2 ->
+  (forall v K, steps (RunV bend v K) (RunV H v K)) ->
+  forall f v0 v K c ck, ext v0 v -> length t - v_ix v < f -> ns1 <= length (v_sl v) -> st_ok cs (sof v) ->
+  nth_error (v_sl v) k0 = Some (V c) -> nth_error (v_sl v) (k0 + 1) = Some ck ->
+  (lo <= N.of_nat c)%N -> (N.of_nat c = lo \/ ck <> V (v_ix v)) ->
+  Gen p q K (RunV H v K) (map (R v0 k0 ns1) (rep_opt_u body gr f (sof v))).
+Proof.
+  intros HH Hb Hnsb Hback. induction f as [|f IH]; intros v0 v K c ck He Hf Hl Hok E1 E2 Hlo Hchk; [lia|].
+  cbn [rep_opt_u].
+  set (v1 := setsl v (upd (upd (v_sl v) k0 (V (c + 1))) (k0 + 1) (V (v_ix v)))).
+  assert (Hs1 : sof v1 = sof v).
+  { unfold v1, sof, setsl; cbn [v_ix v_sl]. now rewrite !caps_upd_ge by lia. }
+  assert (He1 : ext v0 v1).
+  { pose proof (ext_upd v0 (setsl v (upd (v_sl v) k0 (V (c + 1)))) (k0 + 1) (V (v_ix v))) as Hx.
+    apply Hx; [|lia]. apply ext_upd; auto. lia. }
+  assert (Hl1 : length (v_sl v1) = length (v_sl v)) by (unfold v1; cbn [setsl v_sl]; now rewrite !upd_length).
+  rewrite <- Hs1. apply choice_gen; auto.
+  { apply steps_step. rewrite (eps_head H gr lo v K c ck HH Hb E1 E2).
+    replace (N.ltb lo (N.of_nat c) && val_eqb ck (V (v_ix v))) with false.
+    2:{ symmetry. destruct Hchk as [Hc|Hc].
+        - destruct (N.ltb_spec lo (N.of_nat c)); [lia|reflexivity].
+        - destruct (val_eqb_spec ck (V (v_ix v))); [contradiction|]. apply andb_false_r. }
+    destruct (N.leb_spec lo (N.of_nat c)); [|lia]. reflexivity. }
+  intros K'. rewrite Hs1. rewrite <- Hs1 at 1. apply body_then; [lia|now rewrite Hs1|].
+  rewrite Hs1. intros a v2 K2 Hin HR. destruct (ext_R _ _ _ _ He1 HR) as (He2 & Es & Hl2).
+  destruct (Hpres _ _ Hok Hin) as [Hoka Hle].
+  assert (Hok2 : st_ok cs (sof v2)) by now rewrite Es.
+  assert (G1 : nth_error (v_sl v2) k0 = Some (V (c + 1))).
+  { rewrite (R_slot _ _ _ k0 HR) by lia. unfold v1; cbn [setsl v_sl]. rewrite nth_upd_other by lia.
+    apply nth_upd_same. eapply nth_error_lt; eauto. }
+  assert (G2 : nth_error (v_sl v2) (k0 + 1) = Some (V (v_ix v))).
+  { rewrite (R_slot _ _ _ (k0 + 1) HR) by lia. unfold v1; cbn [setsl v_sl].
+    apply nth_upd_same. rewrite upd_length. eapply nth_error_lt; eauto. }
+  eapply Gen_steps; [apply Hback|]. cbn [sof fst] in *.
+  destruct (Nat.eqb_spec (fst a) (v_ix v)) as [Heq|Hne].
+  - cbn [map]. apply Gen_nil. apply steps_step. rewrite (eps_head H gr lo v2 K2 _ _ HH Hb G1 G2).
+    replace (v_ix v2) with (v_ix v) by (rewrite <- Heq, <- Es; reflexivity).
+    destruct (N.ltb_spec lo (N.of_nat (c + 1))); [|lia]. destruct (val_eqb_spec (V (v_ix v)) (V (v_ix v))); [reflexivity|congruence].
+  - rewrite <- Es. pose proof (st_ok_ix _ Hok2). rewrite <- Es in Hle, Hne. cbn [sof fst] in Hle, Hne.
+    eapply IH; eauto; try lia. right. intros Heq. inversion Heq. lia.
+Qed.
+
+Lemma eps_must H (gr : bool) lo :
+  at_ H (if gr then IRepeatEpsilonGr lo q k0 (k0 + 1) else IRepeatEpsilonNg lo q k0 (k0 + 1)) -> S H = bst ->
+  nsb = k0 + 2 ->
+  (forall v K, steps (RunV bend v K) (RunV H v K)) ->
+  forall k v0 v K c ck, ext v0 v -> ns1 <= length (v_sl v) -> st_ok cs (sof v) ->
+  nth_error (v_sl v) k0 = Some (V c) -> nth_error (v_sl v) (k0 + 1) = Some ck ->
+  c + k = N.to_nat lo ->
+  Gen p q K (RunV H v K)
+    (map (R v0 k0 ns1) (flat_map (rep_opt_u body gr fuel) (rep_must body k (sof v)))).
+Proof.
+  intros HH Hb Hnsb Hback. induction k as [|k IH]; intros v0 v K c ck He Hl Hok E1 E2 Hc; cbn [rep_must].
+  - cbn [flat_map]. rewrite app_nil_r. pose proof (st_ok_ix _ Hok).
+    eapply eps_opt; eauto; try lia.
+  - rewrite flat_map_flat_map'.
+    set (v1 := setsl v (upd (v_sl v) k0 (V (c + 1)))).
+    assert (Hs1 : sof v1 = sof v) by (apply sof_upd; lia).
+    assert (He1 : ext v0 v1) by (apply ext_upd; auto; lia).
+    apply Gen_step. rewrite (eps_head H gr lo v K c ck HH Hb E1 E2).
+    destruct (N.ltb_spec lo (N.of_nat c)); [lia|]. cbn [andb]. destruct (N.leb_spec lo (N.of_nat c)); [lia|].
+    fold v1. rewrite <- Hs1. apply body_then; [unfold v1; cbn [setsl v_sl]; rewrite upd_length; lia|now rewrite Hs1|].
+    rewrite Hs1. intros a v2 K2 Hin HR. destruct (ext_R _ _ _ _ He1 HR) as (He2 & Es & Hl2).
+    destruct (Hpres _ _ Hok Hin) as [Hoka Hle].
+    eapply Gen_steps; [apply Hback|]. rewrite <- Es.
+    eapply (IH v0 v2 K2 (c + 1)); auto.
+    + unfold v1 in Hl2; cbn [setsl v_sl] in Hl2. rewrite upd_length in Hl2. lia.
+    + now rewrite Es.
+    + rewrite (R_slot _ _ _ k0 HR) by lia. unfold v1; cbn [setsl v_sl]. apply nth_upd_same. eapply nth_error_lt; eauto.
+    + rewrite (R_slot _ _ _ (k0 + 1) HR) by lia. unfold v1; cbn [setsl v_sl]. rewrite nth_upd_other by lia. exact E2.
+    + lia.
+Qed.
+
+(* ----- RepeatGr / RepeatNg: rep = k0, body slots from k0 + 1 ----- *)
+Lemma cnt_head H (gr : bool) lo hi v K c :
+  at_ H (if gr then IRepeatGr lo hi q k0 else IRepeatNg lo hi q k0) -> S H = bst ->
+  nth_error (v_sl v) k0 = Some (V c) ->
+  mstep (RunV H v K) =
+  if N.eqb (N.of_nat c) hi then RunV q v K else
+  let v1 := setsl v (upd (v_sl v) k0 (V (c + 1))) in
+  if N.leb lo (N.of_nat c) then
+    if gr then RunV bst v1 (alt_of q v1 :: K) else RunV q v1 (alt_of bst v1 :: K)
+  else RunV bst v1 K.
+Proof.
+  intros HH Hb E1. unfold RunV. destruct gr.
+  - rewrite (step_repeat_gr cx P H _ _ _ K lo hi q k0 c HH E1).
+    destruct (N.eqb _ _); [reflexivity|]. cbv zeta. destruct (N.leb lo (N.of_nat c)); rewrite Hb; reflexivity.
+  - rewrite (step_repeat_ng cx P H _ _ _ K lo hi q k0 c HH E1).
+    destruct (N.eqb _ _); [reflexivity|]. cbv zeta. destruct (N.leb lo (N.of_nat c)); rewrite ?Hb; reflexivity.
+Qed.
+
+Section Counted.
+Variables (H : nat) (gr : bool) (lo hi : N).
+Hypothesis HH : at_ H (if gr then IRepeatGr lo hi q k0 else IRepeatNg lo hi q k0).
+Hypothesis Hb : S H = bst.
+Hypothesis Hnsb : nsb = k0 + 1.
+Hypothesis Hback : forall v K, steps (RunV bend v K) (RunV H v K).
+
+Lemma cnt_next v0 v1 v x v2 c : ext v0 v1 -> v1 = setsl v (upd (v_sl v) k0 (V (c + 1))) ->
+  nth_error (v_sl v) k0 = Some (V c) -> ns1 <= length (v_sl v) -> R v1 nsb ns1 x v2 ->
+  ext v0 v2 /\ sof v2 = x /\ ns1 <= length (v_sl v2) /\ nth_error (v_sl v2) k0 = Some (V (c + 1)).
+Proof.
+  intros He1 -> E1 Hl HR. destruct (ext_R _ _ _ _ He1 HR) as (He2 & Es & Hl2).
+  cbn [setsl v_sl] in Hl2. rewrite upd_length in Hl2. repeat split; auto; try lia.
+  - apply He2.
+  - apply He2.
+  - apply He2.
+  - rewrite (R_slot _ _ _ k0 HR) by lia. cbn [setsl v_sl]. apply nth_upd_same. eapply nth_error_lt; eauto.
+Qed.
+
+Lemma cnt_opt_b : forall m v0 v K c, ext v0 v -> ns1 <= length (v_sl v) -> st_ok cs (sof v) ->
+  nth_error (v_sl v) k0 = Some (V c) -> (lo <= N.of_nat c)%N -> c + m = N.to_nat hi ->
+  Gen p q K (RunV H v K) (map (R v0 k0 ns1) (rep_opt_b body gr m (sof v))).
+Proof.
+  induction m as [|m IH]; intros v0 v K c He Hl Hok E1 Hlo Hc; cbn [rep_opt_b].
+  - cbn [map]. eapply Gen_one'; [|apply ext_self_R; eauto]. apply steps_step.
+    rewrite (cnt_head H gr lo hi v K c HH Hb E1). destruct (N.eqb_spec (N.of_nat c) hi); [reflexivity|lia].
+  - set (v1 := setsl v (upd (v_sl v) k0 (V (c + 1)))).
+    assert (Hs1 : sof v1 = sof v) by (apply sof_upd; lia).
+    assert (He1 : ext v0 v1) by (apply ext_upd; auto; lia).
+    rewrite <- Hs1. apply choice_gen; auto.
+    { apply steps_step. rewrite (cnt_head H gr lo hi v K c HH Hb E1).
+      destruct (N.eqb_spec (N.of_nat c) hi); [lia|]. destruct (N.leb_spec lo (N.of_nat c)); [|lia]. reflexivity. }
+    intros K'. rewrite Hs1. rewrite <- Hs1 at 1.
+    apply body_then; [unfold v1; cbn [setsl v_sl]; rewrite upd_length; lia|now rewrite Hs1|].
+    rewrite Hs1. intros a v2 K2 Hin HR.
+    destruct (cnt_next v0 v1 v a v2 c He1 eq_refl E1 Hl HR) as (He2 & Es & Hl2 & G1).
+    destruct (Hpres _ _ Hok Hin) as [Hoka Hle].
+    eapply Gen_steps; [apply Hback|]. rewrite <- Es. eapply (IH v0 v2 K2 (c + 1)); auto; try lia. now rewrite Es.
+Qed.
+
+Lemma cnt_opt_u : hi = usize_max ->
+  (forall st st', st_ok cs st -> In st' (body st) -> fst st < fst st') ->
+  forall f v0 v K c, ext v0 v -> length t - v_ix v < f -> ns1 <= length (v_sl v) -> st_ok cs (sof v) ->
+  nth_error (v_sl v) k0 = Some (V c) -> (lo <= N.of_nat c)%N -> c <= v_ix v ->
+  Gen p q K (RunV H v K) (map (R v0 k0 ns1) (rep_opt_u body gr f (sof v))).
+Proof.
+  intros Hhi Hadv. induction f as [|f IH]; intros v0 v K c He Hf Hl Hok E1 Hlo Hcx; [lia|]. cbn [rep_opt_u].
+  pose proof (st_ok_ix _ Hok) as Hix.
+  set (v1 := setsl v (upd (v_sl v) k0 (V (c + 1)))).
+  assert (Hs1 : sof v1 = sof v) by (apply sof_upd; lia).
+  assert (He1 : ext v0 v1) by (apply ext_upd; auto; lia).
+  rewrite <- Hs1. apply choice_gen; auto.
+  { apply steps_step. rewrite (cnt_head H gr lo hi v K c HH Hb E1).
+    destruct (N.eqb_spec (N.of_nat c) hi); [unfold t in *; lia|]. destruct (N.leb_spec lo (N.of_nat c)); [|lia]. reflexivity. }
+  intros K'. rewrite Hs1. rewrite <- Hs1 at 1.
+  apply body_then; [unfold v1; cbn [setsl v_sl]; rewrite upd_length; lia|now rewrite Hs1|].
+  rewrite Hs1. intros a v2 K2 Hin HR.
+  destruct (cnt_next v0 v1 v a v2 c He1 eq_refl E1 Hl HR) as (He2 & Es & Hl2 & G1).
+  destruct (Hpres _ _ Hok Hin) as [Hoka Hle]. pose proof (Hadv _ _ Hok Hin) as Hlt.
+  assert (Hok2 : st_ok cs (sof v2)) by now rewrite Es.
+  pose proof (st_ok_ix _ Hok2). rewrite <- Es in Hlt. cbn [sof fst] in *.
+  destruct (Nat.eqb_spec (fst a) (v_ix v)) as [Heq|Hne]; [rewrite <- Es in Heq; cbn [sof fst] in Heq; lia|].
+  eapply Gen_steps; [apply Hback|]. rewrite <- Es. eapply (IH v0 v2 K2 (c + 1)); auto; lia.
+Qed.
+
+Lemma cnt_must : (lo <= hi)%N ->
+  (hi = usize_max -> forall st st', st_ok cs st -> In st' (body st) -> fst st < fst st') ->
+  forall k v0 v K c, ext v0 v -> ns1 <= length (v_sl v) -> st_ok cs (sof v) ->
+  nth_error (v_sl v) k0 = Some (V c) -> c + k = N.to_nat lo -> (hi = usize_max -> c <= v_ix v) ->
+  Gen p q K (RunV H v K)
+    (map (R v0 k0 ns1)
+       (flat_map (fun s1 => if N.eqb hi usize_max then rep_opt_u body gr fuel s1
+                            else rep_opt_b body gr (N.to_nat hi - N.to_nat lo) s1)
+                 (rep_must body k (sof v)))).
+Proof.
+  intros Hlh Hadv. induction k as [|k IH]; intros v0 v K c He Hl Hok E1 Hc Hcx; cbn [rep_must].
+  - cbn [flat_map]. rewrite app_nil_r. pose proof (st_ok_ix _ Hok). destruct (N.eqb_spec hi usize_max) as [Hm|Hm].
+    + eapply cnt_opt_u; eauto; lia.
+    + eapply cnt_opt_b; eauto; lia.
+  - rewrite flat_map_flat_map'.
+    set (v1 := setsl v (upd (v_sl v) k0 (V (c + 1)))).
+    assert (Hs1 : sof v1 = sof v) by (apply sof_upd; lia).
+    assert (He1 : ext v0 v1) by (apply ext_upd; auto; lia).
+    apply Gen_step. rewrite (cnt_head H gr lo hi v K c HH Hb E1).
+    destruct (N.eqb_spec (N.of_nat c) hi); [lia|]. destruct (N.leb_spec lo (N.of_nat c)); [lia|].
+    cbv zeta. fold v1. rewrite <- Hs1. apply body_then; [unfold v1; cbn [setsl v_sl]; rewrite upd_length; lia|now rewrite Hs1|].
+    rewrite Hs1. intros a v2 K2 Hin HR.
+    destruct (cnt_next v0 v1 v a v2 c He1 eq_refl E1 Hl HR) as (He2 & Es & Hl2 & G1).
+    destruct (Hpres _ _ Hok Hin) as [Hoka Hle].
+    eapply Gen_steps; [apply Hback|]. rewrite <- Es.
+    eapply (IH v0 v2 K2 (c + 1)); auto; try lia; [now rewrite Es|].
+    intros Hm. specialize (Hadv Hm _ _ Hok Hin). specialize (Hcx Hm). rewrite <- Es in Hadv. cbn [sof fst] in Hadv. lia.
+Qed.
+
+End Counted.
+
+End Loop.
 
 End CC.
